@@ -5,6 +5,7 @@ use crate::ev;
 use crate::kernel::{Ctx, Violation};
 use crate::runner::Property;
 use ppoprf::ggm::GGM;
+use ppoprf::ppoprf as pp;
 use ppoprf::PPRF;
 use std::collections::BTreeSet;
 
@@ -127,6 +128,15 @@ impl Property for C10 {
             v[x as usize] = o;
         }
         let mut insts: Vec<Inst> = vec![Inst { key, punctured: [false; 256], n_punct: 0 }];
+        // The same puncturable key as a user of the crate holds it: inside ppoprf::Server, with the
+        // input as the one-byte metadata tag. The shadow follows instance 0 of the history.
+        let mut shadow: Option<pp::Server> = if ctx.ch.chance(1, 3) {
+            ctx.stats.probe("server_shadow_runs");
+            Some(ctx.os.with_node(3, || pp::Server::new((0..=255u8).collect())).map_err(|e| Violation::new("c10.value_changed", "server_new", format!("Server::new over the full domain failed: {}", e)))?)
+        } else {
+            None
+        };
+        let shadow_point = pp::Point::from(&curve25519_dalek::constants::RISTRETTO_BASEPOINT_COMPRESSED.to_bytes()[..]);
         let mut cur = 0usize;
         let (ord, ord_name) = order(ctx);
         let mode = if ord_name == "subtree-last" && ctx.ch.chance(2, 3) { 0 } else { ctx.ch.draw(6) };
@@ -183,6 +193,12 @@ impl Property for C10 {
                     if insts[cur].key.puncture(&[x]).is_ok() {
                         return Err(Violation::new("c10.double_puncture", "double_puncture", format!("input {} was punctured a second time without error", x)));
                     }
+                    if let (0, Some(srv)) = (cur, shadow.as_mut()) {
+                        if srv.puncture(x).is_ok() {
+                            return Err(Violation::new("c10.double_puncture", "double_puncture_via_server", format!("input {} was punctured a second time through ppoprf::Server::puncture without error", x)));
+                        }
+                        ctx.stats.probe("server_double_puncture_refused");
+                    }
                     let around: Vec<u8> = (0..8).map(|b| x ^ (1 << b)).chain(std::iter::once(x)).collect();
                     check_inputs(ctx, &insts[cur], &v, around.into_iter(), "a refused repeated puncture")?;
                     ctx.stats.probe("double_puncture_refused");
@@ -205,6 +221,11 @@ impl Property for C10 {
                     let r = insts[cur].key.puncture(&[x]);
                     if let Err(e) = r {
                         return Err(Violation::new("c10.value_changed", "puncture_refused", format!("puncturing the unpunctured input {} failed ({}) with {} punctured before (order {})", x, e, insts[cur].n_punct, ord_name)));
+                    }
+                    if let (0, Some(srv)) = (cur, shadow.as_mut()) {
+                        if let Err(e) = srv.puncture(x) {
+                            return Err(Violation::new("c10.value_changed", "puncture_refused_via_server", format!("puncturing the unpunctured input {} through ppoprf::Server::puncture failed ({}) with {} punctured before (order {})", x, e, insts[cur].n_punct, ord_name)));
+                        }
                     }
                     insts[cur].punctured[x as usize] = true;
                     insts[cur].n_punct += 1;
@@ -240,6 +261,20 @@ impl Property for C10 {
             ctx.stats.probe("full_sweeps");
             if insts[i].n_punct >= 3 {
                 did_full_after_punct = true;
+            }
+        }
+        if let Some(srv) = shadow.as_ref() {
+            // the server answers a tag iff the history left it unpunctured (8 drawn tags + the last punctured)
+            let mut tags: Vec<u8> = (0..8).map(|_| ctx.ch.draw(256) as u8).collect();
+            if let Some(x) = (0..=255u8).rev().find(|x| insts[0].punctured[*x as usize]) {
+                tags.push(x);
+            }
+            for x in tags {
+                let ok = ctx.os.with_node(3, || srv.eval(&shadow_point, x, false)).is_ok();
+                if ok == insts[0].punctured[x as usize] {
+                    return Err(Violation::new("c10.punctured_evaluates", "server_eval_iff", format!("ppoprf::Server answers tag {}: {}, but the history {} it", x, ok, if ok { "punctured" } else { "never punctured" })));
+                }
+                ctx.stats.probe("server_shadow_evals");
             }
         }
         ctx.stats.nontrivial = did_full_after_punct;
